@@ -433,6 +433,48 @@ def threshold_histories(tier, seed):
     return out
 
 
+def fat_boundary_histories(tier):
+    """Every kind of allocation made while the file is 0..3 sectors short of a FAT-sector boundary (version 3:
+    128 sectors = 64 KiB; version 4: 1024 sectors = 4 MiB, thorough tier only), so that the FAT sector is added in
+    the middle of a directory-sector, MiniFAT, container, migration or chain allocation - the classes of CfbPhys's
+    case analysis that small histories never reach at real geometry."""
+    out = []
+    for ver in ((3, 4) if tier == "thorough" else (3,)):
+        slen = 512 if ver == 3 else 4096
+        per = slen // 4
+        for d in (0, 1, 2, 3):
+            n = per - 2 - d                      # sectors of the filler stream: FAT + directory + n = per - d
+            scripts = {
+                "small": [("create_stream", ["zz"]), ("write", ["zz"], 0, 100), ("write", ["zz"], 100, 700)],
+                "dirs": [("create_storage", ["k1"]), ("create_storage", ["k2"]), ("create_storage", ["k3"]), ("create_stream", ["k4"]),
+                         ("create_storage", ["k1", "k5"])],
+                "append": [("write", ["AB"], n * slen, 600), ("write", ["AB"], n * slen + 600, 3 * slen)],
+                "grow": [("set_len", ["AB"], n * slen + 1000), ("set_len", ["AB"], n * slen + 1000 + 2 * slen)],
+                "setlen_small": [("create_stream", ["zz"]), ("set_len", ["zz"], 100), ("set_len", ["zz"], 5000), ("set_len", ["zz"], 100),
+                                 ("set_len", ["zz"], 0)],
+                "big": [("create_stream", ["zz"]), ("write", ["zz"], 0, 5000), ("set_len", ["zz"], 12000)],
+                "migrate": [("create_stream", ["zz"]), ("write", ["zz"], 0, 64), ("create_stream", ["quux"]), ("write", ["quux"], 0, 64),
+                            ("write", ["zz"], 64, 5000), ("set_len", ["quux"], 4096)],
+                "reuse": [("set_len", ["AB"], (n - 3) * slen), ("create_stream", ["zz"]), ("write", ["zz"], 0, 3 * slen + 1),
+                          ("create_stream", ["quux"]), ("write", ["quux"], 0, 100)],
+                "shrink_to_small": [("create_stream", ["zz"]), ("write", ["zz"], 0, 100), ("set_len", ["AB"], 1000)],
+            }
+            for name, steps in scripts.items():
+                f = Fill()
+                ops = [{"op": "create_stream", "p": sp(["AB"]), "heavy": False},
+                       {"op": "write", "p": sp(["AB"]), "off": 0, "runs": [[f.next(), n * slen]], "heavy": True}]
+                for st in steps:
+                    if st[0] == "write":
+                        ops.append({"op": "write", "p": sp(st[1]), "off": st[2], "runs": [[f.next(), st[3]]], "heavy": True})
+                    elif st[0] == "set_len":
+                        ops.append({"op": "set_len", "p": sp(st[1]), "n": st[2], "heavy": True})
+                    else:
+                        ops.append({"op": st[0], "p": sp(st[1]), "heavy": True})
+                ops.append({"op": "reopen", "mode": "strict", "heavy": True})
+                out.append({"id": f"fatb_v{ver}_{d}_{name}", "ver": ver, "heavy": "marked", "ops": ops})
+    return out
+
+
 def with_forks(rng, hists, p=0.5):
     """For each history also produce a copy that reopens the bytes (no flush)
     at a random operation boundary and continues on the reopened file."""
